@@ -358,4 +358,44 @@ def after (fixed : Bool) (cfg : Cfg) (w : List Ev) : State := SM.exec (step fixe
 /-- outputs along a history -/
 def outs (fixed : Bool) (cfg : Cfg) (w : List Ev) : List Out := (SM.run (step fixed cfg) (init cfg) w).2
 
+/-! ### several jobs in one process
+
+A Python process holds any number of `LocalJob`s, created at any time, possibly in flight at the same
+time (one in a worker thread, another executed meanwhile).  The code gives every job its own
+`JobStatus`, its own `_delta_parameters` dictionaries (`Job.__init__`: `delta_parameters or {...}`,
+a fresh literal per call), its own cancel flag, worker and results: nothing is shared.  The process
+model is therefore the product of the single-job machines: an event addressed to job `i` steps job `i`
+and no other.  (That the REAL jobs of one process behave like this product — each job like its own
+single-job model whatever other jobs were created or executed before or meanwhile — is what the
+multi-job part of the correspondence checks.) -/
+
+inductive PEv
+  | create (cfg : Cfg)            -- `LocalJob(...)`: a further job, appended to the process
+  | on (i : Nat) (e : Ev)         -- event `e` on the `i`-th job created
+  deriving Repr
+
+/-- the jobs of a process, in creation order, each with its constructor arguments -/
+abbrev Proc := List (Cfg × State)
+
+/-- answers are tagged with the job they come from; a creation answers nothing; an event addressed
+to a job that does not exist (yet) is disabled -/
+def pstep (fixed : Bool) (P : Proc) : PEv → Proc × Option (Nat × Out)
+  | .create cfg => (P ++ [(cfg, init cfg)], none)
+  | .on i e =>
+    match P[i]? with
+    | none => (P, some (i, .disabled))
+    | some (cfg, s) => (P.set i (cfg, (step fixed cfg s e).1), some (i, (step fixed cfg s e).2))
+
+/-- the events of a process history addressed to job `i` -/
+def proj (i : Nat) : List PEv → List Ev
+  | [] => []
+  | .create _ :: W => proj i W
+  | .on j e :: W => if j = i then e :: proj i W else proj i W
+
+/-- the answers of a process history that come from job `i` -/
+def answersTo (i : Nat) : List (Option (Nat × Out)) → List Out
+  | [] => []
+  | none :: l => answersTo i l
+  | some (j, o) :: l => if j = i then o :: answersTo i l else answersTo i l
+
 end PM.C18
